@@ -29,7 +29,7 @@ BUILTIN_NAMES = {'len', 'min', 'max', 'int', 'range', 'enumerate', 'list', 'call
                  'bool', 'abs', 'print', 'bytes', 'bytearray', 'sum', 'float', 'tuple', 'dict'}
 SPEC_NAMES = {'old', 'implies', 'forall', 'exists', 'ite', 'octets', 'bits', 'seq', 'at_entry', 'unchanged',
               'same_elems', 'iff', 'keys_forall', 'typeis', 'fresh_list', 'count', 'select', 'intdiv',
-              'is_none', 'rep', 'concat', 'has_key', 'no_alias', 'allocated_before', 'steps', 'sumlen'}
+              'is_none', 'rep', 'concat', 'has_key', 'no_alias', 'allocated_before', 'steps', 'sumlen', 'fn', 'method'}
 EXC_NAMES = set(EXC_PARENTS) | {'RuntimeWarning'}
 
 
@@ -68,7 +68,7 @@ class Interp:
 
     def idx(self, v):
         """V -> Int-sorted index term"""
-        v = self.concretize(v)
+        v = self.concretize(v, (VInt, VBool))
         if isinstance(v, VInt):
             return self.ar.to_index(v.t)
         if isinstance(v, VBool):
@@ -86,17 +86,41 @@ class Interp:
     # ------------------------------------------------------------------
     # unions
     # ------------------------------------------------------------------
-    def concretize(self, v):
-        """resolve a VUnion to one alternative (forks in code mode)"""
+    def concretize(self, v, want=None):
+        """resolve a VUnion to one alternative.  Code mode: fork.  Spec mode: the unique alternative of
+        the wanted kind (None is never wanted); its condition becomes a pending definedness guard that
+        the enclosing boolean connective / clause conjoins."""
         if not isinstance(v, VUnion):
             return v
         alts = [(c, a) for c, a in flatten_union(v) if not z3.is_false(c)]
         if len(alts) == 1:
             return alts[0][1]
         if self.st.spec:
-            raise EngineError('union value needs a definite type in spec mode (line %s): %r' % (self.st.cur_line, [a for _, a in alts]))
+            pool = [(c, a) for c, a in alts if not isinstance(a, VNone)]
+            if want is not None:
+                pool = [(c, a) for c, a in pool if isinstance(a, want)]
+            if len(pool) != 1:
+                raise EngineError('union value needs a definite type in spec mode (line %s): %r' % (self.st.cur_line, [a for _, a in alts]))
+            self.st.defined.append(pool[0][0])
+            return pool[0][1]
         i = self.st.branch([c for c, _ in alts], 'union')
         return alts[i][1]
+
+    def guarded(self, fn):
+        """evaluate fn() collecting its definedness guards locally -> (value, guard list)"""
+        st = self.st
+        saved = st.defined
+        st.defined = []
+        try:
+            v = fn()
+            return v, st.defined
+        finally:
+            st.defined = saved
+
+    def gtruth(self, node):
+        """truth value of a spec expression with its guards embedded"""
+        v, g = self.guarded(lambda: self.truth(self.eval(node)))
+        return z3.And(g + [v]) if g else v
 
     def map_union(self, v, f):
         """apply f to each alternative; f returns BoolRef -> result Or(And(c, f(a)))"""
@@ -282,11 +306,12 @@ class Interp:
         raise Unsupported('`is` on %r, %r' % (a, b))
 
     def order(self, op, a, b):
-        a, b = self.concretize(a), self.concretize(b)
+        NUMSEQ = (VInt, VBool, VReal, VList, VSeq)
+        a, b = self.concretize(a, NUMSEQ), self.concretize(b, NUMSEQ)
         np_ = self.num_pair(a, b)
         if np_ is None:
             if isinstance(a, (VList, VSeq)) and isinstance(b, (VList, VSeq)):
-                raise Unsupported('ordering comparison of sequences (line %s)' % self.st.cur_line)
+                return self.seq_order(op, a, b)
             raise self.type_error('ordering %r %r' % (a, b))
         kind, ta, tb = np_
         if isinstance(op, ast.Lt):
@@ -296,6 +321,30 @@ class Interp:
         if isinstance(op, ast.Gt):
             return ta > tb
         return ta >= tb
+
+    def seq_order(self, op, a, b):
+        """lexicographic comparison of two sequences of concrete (small) length"""
+        sa, sb = self.as_seq(a), self.as_seq(b)
+        na, nb = self.st.forced_int(sa.len), self.st.forced_int(sb.len)
+        if na is None or nb is None or na > 32 or nb > 32:
+            raise Unsupported('ordering comparison of sequences of symbolic length (line %s)' % self.st.cur_line)
+        m = min(na, nb)
+        ea = [self.concretize(sa.get(z3.IntVal(i))) for i in range(m)]
+        eb = [self.concretize(sb.get(z3.IntVal(i))) for i in range(m)]
+        lt_cases, prefix = [], []
+        for i in range(m):
+            lt_cases.append(z3.And(prefix + [self.order(ast.Lt(), ea[i], eb[i])]))
+            prefix = prefix + [self.eq(ea[i], eb[i])]
+        alleq = z3.And(prefix) if prefix else z3.BoolVal(True)
+        lt = z3.Or(lt_cases + [z3.And(alleq, z3.BoolVal(na < nb))])
+        eq = z3.And(alleq, z3.BoolVal(na == nb))
+        if isinstance(op, ast.Lt):
+            return z3.simplify(lt)
+        if isinstance(op, ast.LtE):
+            return z3.simplify(z3.Or(lt, eq))
+        if isinstance(op, ast.Gt):
+            return z3.simplify(z3.Not(z3.Or(lt, eq)))
+        return z3.simplify(z3.Not(lt))
 
     def const_seq(self, lst):
         vals = [self.lift(x) for x in lst]
@@ -325,7 +374,8 @@ class Interp:
 
     def binop(self, op, a, b):
         st, ar = self.st, self.ar
-        a, b = self.concretize(a), self.concretize(b)
+        NUMSEQ = (VInt, VBool, VReal, VList, VSeq, VStr, VSymStr, VConst)
+        a, b = self.concretize(a, NUMSEQ), self.concretize(b, NUMSEQ)
         # sequences
         if isinstance(op, ast.Mult):
             if isinstance(a, (VList, VSeq, VConst)) and isinstance(b, (VInt, VBool)):
@@ -491,7 +541,7 @@ class Interp:
     def unop(self, op, v):
         if isinstance(op, ast.Not):
             return VBool(z3.simplify(z3.Not(self.truth(v))))
-        v = self.concretize(v)
+        v = self.concretize(v, (VInt, VBool, VReal))
         if isinstance(op, ast.USub):
             if isinstance(v, VReal):
                 return VReal(-v.t)
@@ -513,7 +563,7 @@ class Interp:
     # ------------------------------------------------------------------
     def as_seq(self, v):
         st = self.st
-        v = self.concretize(v)
+        v = self.concretize(v, (VSeq, VList, VConst, VTuple))
         if isinstance(v, VSeq):
             return v
         if isinstance(v, VList):
@@ -723,6 +773,8 @@ class Interp:
                 return VBuiltin('spec.' + name)
             if name in self.eng.spec_funcs:
                 return VBuiltin('specfn.' + name)
+            if name in self.eng.spec_consts:
+                return self.lift(self.eng.spec_consts[name])
         if name in BUILTIN_NAMES:
             return VBuiltin(name)
         if name in ('True', 'False', 'None'):
@@ -750,8 +802,7 @@ class Interp:
     def e_BoolOp(self, node):
         st = self.st
         if st.spec:
-            vals = [self.eval(v) for v in node.values]
-            ts = [self.truth(v) for v in vals]
+            ts = [self.gtruth(v) for v in node.values]
             return VBool(z3.simplify(z3.And(ts) if isinstance(node.op, ast.And) else z3.Or(ts)))
         # code mode: short-circuit, result is the deciding operand
         v = None
@@ -779,15 +830,27 @@ class Interp:
         st = self.st
         c = self.truth(self.eval(node.test))
         if st.spec:
-            cs = z3.simplify(c)
-            if z3.is_true(cs):
-                return self.eval(node.body)
-            if z3.is_false(cs):
-                return self.eval(node.orelse)
-            return self.ite(c, self.eval(node.body), self.eval(node.orelse))
+            return self.spec_ite(c, node.body, node.orelse)
         if st.branch_bool(c, 'ifexp'):
             return self.eval(node.body)
         return self.eval(node.orelse)
+
+    def spec_ite(self, c, body, orelse):
+        st = self.st
+        cs = z3.simplify(c)
+        if z3.is_true(cs):
+            return self.eval(body)
+        if z3.is_false(cs):
+            return self.eval(orelse)
+        a, ga = self.guarded(lambda: self.eval(body))
+        b, gb = self.guarded(lambda: self.eval(orelse))
+        if isinstance(a, VBool) and isinstance(b, VBool):
+            return VBool(z3.If(c, z3.And(ga + [a.t]), z3.And(gb + [b.t])))
+        for g in ga:
+            st.defined.append(z3.Implies(c, g))
+        for g in gb:
+            st.defined.append(z3.Implies(z3.Not(c), g))
+        return self.ite(c, a, b)
 
     def e_Compare(self, node):
         st = self.st
@@ -1090,7 +1153,10 @@ class Interp:
 
     def getitem(self, obj, key):
         st = self.st
-        obj = self.concretize(obj)
+        if isinstance(key, VStr):
+            obj = self.concretize(obj, (VRef, VKwargs, VConst))
+        else:
+            obj = self.concretize(obj, (VList, VSeq, VTable, VTuple, VConst))
         if isinstance(obj, VNone):
             raise self.type_error("'NoneType' object is not subscriptable")
         if isinstance(obj, (VList, VSeq)):
@@ -1211,7 +1277,7 @@ class Interp:
         if isinstance(fnode, ast.Name) and fnode.id == 'print':
             return VNone()
         # spec builtins that need unevaluated arguments
-        if st.spec and isinstance(fnode, ast.Name) and fnode.id in ('old', 'forall', 'exists', 'at_entry', 'keys_forall', 'unchanged', 'count'):
+        if st.spec and isinstance(fnode, ast.Name) and fnode.id in ('old', 'forall', 'exists', 'at_entry', 'keys_forall', 'unchanged', 'count', 'implies', 'ite', 'iff'):
             return self.eng.spec_special(self, fnode.id, node)
         f = self.eval(fnode)
         args = []
